@@ -7,7 +7,7 @@ import engine, specutil
 def all_targets():
     import t_macros
     ts = list(t_macros.TARGETS)
-    for mod in ("t_vm", "t_values", "t_compile"):
+    for mod in ("t_vm", "t_values", "t_compile", "t_serde"):
         try:
             m = __import__(mod)
             ts += m.TARGETS
@@ -16,7 +16,34 @@ def all_targets():
     return ts
 
 
+def run_special(P, t):
+    """targets that orchestrate several explorations themselves"""
+    V = specutil.Verdicts(t["name"])
+    t0 = time.time()
+    try:
+        st = t["special"](P, t, V)
+    except Exception as e:
+        traceback.print_exc()
+        return dict(name=t["name"], props=t["props"], status="inconclusive", why=f"engine error: {type(e).__name__}: {e}", obligations=V.obligations, discharged=V.discharged, failures=V.failures, paths=0)
+    stats = (st or {}).get("stats", {"paths": 0, "returned": 0, "solver_calls": 0, "solver_time": 0.0, "unsupported": 0, "bound": 0, "unsupported_msgs": []})
+    used = (st or {}).get("used", {"inlined": set(), "modelled": set(), "havocked": set()})
+    status, why = "proved", ""
+    if V.failures:
+        status = "failed"
+    elif V.inconclusive or stats["unsupported"]:
+        status, why = "inconclusive", f"{V.inconclusive[:3]} {stats['unsupported_msgs'][:3]}"
+    elif V.obligations == 0:
+        status = "vacuous"
+    return dict(name=t["name"], props=t["props"], status=status, why=why, what=t.get("what", ""), entry="derive-generated impls", mir_lines=0,
+                obligations=V.obligations, discharged=V.discharged, failures=V.failures[:12], nfailures=len(V.failures), paths=stats["paths"], witnesses=V.witnesses,
+                stats={k: v for k, v in stats.items() if k != "unsupported_msgs"}, inlined=sorted(used["inlined"]), modelled=sorted(used["modelled"]),
+                havocked=sorted(used["havocked"]), bounds=t.get("bounds", {}), solver_time=round(stats["solver_time"] + V.solver_time, 3),
+                solver_calls=stats["solver_calls"] + V.solver_calls, wall=round(time.time() - t0, 2))
+
+
 def run_target(P, t, time_budget=600):
+    if "special" in t:
+        return run_special(P, t)
     V = specutil.Verdicts(t["name"])
     try:
         f = t["func"] if not isinstance(t["func"], str) else specutil.find_func(P, t["func"], t.get("self_ty"))
